@@ -160,6 +160,7 @@ theorem Inv.markImpl {mk c₀} {s : Ctx} (k : MKey) (m : Mod) (h : Inv mk c₀ s
     intro m' hm' hk'
     exact nodup_map_inj h.nodup hm' hmem (by rw [hk', hkey])
   unfold LyModel.Ctx.markImpl
+  apply Inv.tick
   refine ⟨?_, ?_, ?_⟩
   · rw [← h.restore]
     simp only [LyModel.Ctx.restore, Ctx.upd, List.filter_map, List.map_map]
